@@ -228,6 +228,20 @@ def sibling_constants(model: Model, run: Run) -> None:
     rb = an.reader_helper.get("read_boolean")
     if wb is None or rb is None:
         raise AnalysisError("boolean helpers not identified")
+    # the octets may be chosen in the public method itself when the private helper was inlined into it
+    wm = model.find_method("sansldap.asn1.ASN1Writer", "write_boolean")
+    rm = model.find_method("sansldap.asn1.ASN1Reader", "read_boolean")
+
+    class _Both:
+        def __init__(self, a, b):
+            self.node = ast.Module(body=[x.node for x in (a, b) if x is not None], type_ignores=[])
+            self.qualname, self.module = a.qualname, a.module
+    if wb is an.packer and wm is not None:
+        wb = _Both(wm, None)
+    elif wm is not None and not any(isinstance(n, ast.Constant) and isinstance(n.value, bytes) for n in ast.walk(wb.node)):
+        wb = _Both(wb, wm)
+    if rm is not None and not any(isinstance(n, ast.Compare) for n in ast.walk(rb.node)):
+        rb = _Both(rb, rm)
     wconsts = sorted({n.value for n in ast.walk(wb.node) if isinstance(n, ast.Constant) and isinstance(n.value, bytes)})
     ok = wconsts == [b"\x00", b"\xff"]
     ife = [n for n in ast.walk(wb.node) if isinstance(n, ast.IfExp)]
